@@ -34,6 +34,8 @@ import Pandora.Bridge.Waiter
 import Pandora.Bridge.C12Left
 import Pandora.Bridge.C12Wait
 import Pandora.Proofs.C12Wait
+import Pandora.Props.C02
+import Pandora.Props.C04
 
 namespace Pandora.Props.C12
 open Pandora.Model.C04 Pandora.Model.C12 Pandora.Proofs.C04 Pandora.Proofs.C12 Pandora.Go.C12
@@ -812,5 +814,102 @@ example : Gen.Startup.awaitLoopGoesOn (wrun genTab (WSt.init genTab) [.start, .a
     (wrun genTab (WSt.init genTab) [.allFinished, .provider]).runs = false := by decide
 
 end Wait
+
+/-! ## Round 6 — compositions with the neighbouring properties' models (C04: the Waiter of an instance; C02: the shared RPS profile
+under concurrent callers).  Nothing of those models is copied or assumed: their definitions and theorems are imported, their
+regenerated sources (`Gen.Waiter`, `Gen.C02Src`, `Gen.C02Cb` …) are regenerated by C12's own check too (props/C12.json). -/
+
+section round6
+
+/-- the history of a hiccup of the target, `discard_overflow` on: the first shot hangs 2.5 s, so the second token (due at 0) is 2.5 s
+overdue when it is drawn — it is discarded; the third token (due at 3 s) is drawn at 2.6 s, waited for on the timer and FIRED -/
+def hiccup : List Pandora.Model.C04.Iter :=
+  [{ env := { tok := some 0, pick := 0, now := 0, arm := 0, ret := 0 } },
+   { env := { tok := some 0, pick := 2500000000, now := 2500000000, arm := 2500000000, ret := 2500000000 } },
+   { env := { tok := some 3000000000, pick := 2600000000, now := 2600000000, arm := 2600000000, ret := 3000000000 } }]
+
+open Pandora.Model.C04 in
+/-- **(composition with C04) A started instance KEEPS FIRING, whatever happened to it before.**  The loop of `instance.Run` is C04's
+`runLoop` (= the REGENERATED pass `Gen.Waiter.iteration`, last conjunct), started in ANY state `w` of its Waiter — a stale cached
+clock reading, a lateness recorded for a token long ago (a hiccup of the target), anything — with `discard_overflow` on or off, over
+ANY history of passes `h` (tokens, clock readings, who wins the final `select`) that meets C04's clock hypotheses: every token the
+instance has drawn and waited for (`drawn`) that was less than `MaxOverdueDuration` late when `Wait` returned IS FIRED (`Shoot` is
+called for it) and is never reported as discarded.  So between its start and its end (RPS profile / ammo exhausted, run cancelled:
+`C12_never_reduced`, `C12_exit_reason_is_source`) an instance does not silently stop firing: the only tokens it does not fire are
+those `discard_overflow` drops for being 2 s or more overdue.  (A `Wait` that forgets to reset the recorded lateness on the timer
+path — seeded change C12-r5-3 — breaks `Bridge.Waiter.Wait_eq`, on which this rests.) -/
+theorem C12_keeps_firing_tokens_waited_in_time (d : Bool) (w : Pandora.Model.C04.Waiter) (h : List Pandora.Model.C04.Iter)
+    (hc : Pandora.Proofs.C04.ClockOK w h) (it : Pandora.Model.C04.Iter) (hit : it ∈ drawn .fresh w h) (next : Int)
+    (htok : it.env.tok = some next) (hlate : it.env.ret - next < maxOverdue) :
+    Ev.shoot it ∈ (runLoop .fresh d w h).1 ∧
+    (∀ s, Ev.discard it s ∉ (runLoop .fresh d w h).1) ∧
+    (∀ w' it', Gen.Waiter.iteration d w' it' = iteration .fresh d w' it') := by
+  have hnd : ∀ s, Ev.discard it s ∉ (runLoop .fresh d w h).1 := by
+    intro s hs
+    cases d with
+    | false =>
+      rw [Pandora.Props.C04.C04_off] at hs
+      simp at hs
+    | true =>
+      obtain ⟨n', h1, h2⟩ := Pandora.Props.C04.C04_not_discarded_if_fresh .fresh w h hc it s hs
+      rw [htok] at h1; cases h1; omega
+  refine ⟨?_, hnd, fun w' it' => Pandora.Bridge.Waiter.iteration_eq d w' it'⟩
+  have hm := Pandora.Props.C04.C04_every_drawn_token_acted .fresh d w h
+  rw [← hm] at hit
+  obtain ⟨ev, hev, hiter⟩ := List.mem_map.mp hit
+  cases ev with
+  | shoot it' => simp [Ev.iter] at hiter; subst hiter; exact hev
+  | discard it' s => simp [Ev.iter] at hiter; subst hiter; exact absurd hev (hnd s)
+
+/-- non-vacuity: the hiccup history meets the clock hypotheses, all three tokens are drawn and waited for, the second (2.5 s late)
+is discarded, the third (in time) is fired although the Waiter still remembers … nothing: the lateness is reset on the timer path -/
+example : Pandora.Proofs.C04.ClockOK { lastNow := -5 } hiccup ∧
+    (∀ it ∈ hiccup, it ∈ Pandora.Model.C04.drawn .fresh { lastNow := -5 } hiccup) ∧
+    (Pandora.Model.C04.runLoop .fresh true { lastNow := -5 } hiccup).1.map Pandora.Model.C04.Ev.isShoot = [true, false, true] ∧
+    (Pandora.Model.C04.runLoop .fresh true { lastNow := -5, overdue := 2500000000 } (hiccup.drop 2)).1.map Pandora.Model.C04.Ev.isShoot = [true] := by
+  decide
+
+open Pandora.Model.C02.CbW Pandora.Proofs.C02Cb Pandora.Model.C02.Par Pandora.Model.C02 in
+/-- **(composition with C02) Instance start is cut short by "the shared RPS profile finished" only when that profile IS finished.**
+Any number of instances (`progs`: the `Next` / `Left` calls each of them makes), ANY interleaving of their steps through the
+callback wrapper `coreutil.callbackOnFinishSchedule` (`sched`, clock not going back) around a shared profile that is linearizable
+to the flat succession of its parts (`Abs.running segs0` — what C02 proves of every composite, `C02_conc_linearizable`, about the
+REGENERATED `compositeSchedule.Next`: last conjunct): when the finish callback is entered (`cbBegin`) — and the callback is
+installed on the SHARED schedule only, runs on a `Next` without token / a `Left()` of 0, and all it does is cancel the START
+context (regenerated, first four conjuncts) — then (a) the caller that runs it has just got a finishing answer, (b) it was not
+entered before, and (c) from then on NO caller of the profile ever gets a token again: every token of the RPS profile had been
+handed out.  So the cause "shared RPS profile finished" of `C12_all_tokens_unless` is real in the sense of the property: tokens
+of the startup profile are left without instances only when there is nothing left to fire.  (Seeded change C12-r5-1 — `Next`
+returning `!ok` at a token-less part in the "somebody shifted before us" branch — breaks `C02_next_is_source`.) -/
+theorem C12_start_cut_by_shared_rps_end_is_final {σ : Type} (ops : Ops σ)
+    (segs0 : List Pandora.Spec.C02.Seg) (progs : List (List Op)) (sched : List (Nat × Int)) (clk0 : Int)
+    (hclk : Pandora.Proofs.C02Par.ClockOK clk0 sched) (newer older : WLog) (e : Nat × Int × WEv)
+    (hl : (wrun absInner (winit (Pandora.Spec.C02.Abs.running segs0) progs) sched).log = newer ++ e :: older)
+    (he : e.2.2 = .cbBegin) :
+    (∀ pi, Gen.Startup.callbackInstalled pi = !pi) ∧
+    (∀ cd, Gen.Startup.onSharedRpsFinish cd = if cd Ctx.start then [] else [PoolAct.cancel Ctx.start]) ∧
+    (∀ ok, Gen.Startup.callbackOnNext ok = !ok) ∧ (∀ l, Gen.Startup.callbackOnLeft l = (l == 0)) ∧
+    (∃ r, lastGot e.1 older = some r ∧ finishing r = true) ∧
+    (∀ y ∈ older, y.2.2 ≠ .cbBegin) ∧
+    (∀ y ∈ newer, ∀ tx, y.2.2 ≠ .got (.tok tx true)) ∧
+    (∀ (s : Sh σ) (tx : Int) (seen : Nat) (now : Int),
+      Pandora.Gen.C02Src.compositeSchedule_Next_writer ops s tx seen now = nextWriter ops s tx seen now) := by
+  obtain ⟨h1, h2⟩ := Pandora.Props.C02.C02_cb_only_when_finished absInner _ progs sched newer older e hl he
+  exact ⟨Bridge.C12Startup.callbackInstalled_eq, Bridge.C12Startup.onSharedRpsFinish_eq,
+    Bridge.C12Startup.callbackOnNext_eq, Bridge.C12Startup.callbackOnLeft_eq, h1, h2,
+    Pandora.Props.C02.C02_cb_sound segs0 progs sched clk0 hclk newer older e hl he,
+    (Pandora.Props.C02.C02_next_is_source ops).2.2⟩
+
+/-- non-vacuity: two instances on a shared profile of one token; both learn that it is exhausted, the second one enters the
+callback (the 4th event of the log), after which nobody gets a token -/
+example : ((Pandora.Model.C02.CbW.wrun Pandora.Proofs.C02Cb.absInner
+      (Pandora.Model.C02.CbW.winit (.running [.fin [5] 5]) [[.next, .next], [.next]])
+      [(0, 9), (0, 9), (1, 9), (1, 9), (0, 9), (0, 9), (0, 9), (1, 9), (0, 9)]).log.reverse.map (·.2.2)) =
+    [.got (.tok 5 true), .ret (.tok 5 true), .got (.tok 5 false), .cbBegin, .got (.tok 5 false), .blocked, .blocked,
+     .cbEnd, .ret (.tok 5 false), .ret (.tok 5 false)] ∧
+    Pandora.Proofs.C02Par.ClockOK 0 [(0, 9), (0, 9), (1, 9), (1, 9), (0, 9), (0, 9), (0, 9), (1, 9), (0, 9)] := by
+  refine ⟨by decide, by simp [Pandora.Proofs.C02Par.ClockOK]⟩
+
+end round6
 
 end Pandora.Props.C12
